@@ -28,6 +28,8 @@ PROFILES = {
     'c07': {'n_nodes': [1, 2, 2, 3, 3, 4], 'p_qcap': 0.85, 'p_qcap_sched': 0.3, 'qcaps': [0, 0, 1, 1, 2], 'p_kinds': (0.7, 0.05, 0.25, 0.0),
             'sched_preempt': [False], 'p_prio_preempt': 0.0, 'p_ps': 0.0, 'arr_scale': 0.7, 'p_renege': 0.35,
             'tm_weights': [0, 1, 1, 2], 'p_noleave': 0.05},
+    'c07inf': {'n_nodes': [2, 2, 3, 3], 'p_qcap': 0.85, 'qcaps': [0, 0, 1, 1, 2], 'p_kinds': (0.4, 0.45, 0.15, 0.0), 'sched_preempt': [False], 'p_prio_preempt': 0.0,
+               'p_ps': 0.5, 'p_ps_node': 0.5, 'arr_scale': 0.7, 'p_lattice': 0.6, 'p_batch': 0.6, 'tm_weights': [0, 1, 1, 2], 'p_noleave': 0.05},
     'c08': {'n_classes': [2, 3, 3], 'p_prio': 0.9, 'arr_scale': 0.6, 'p_qcap': 0.2, 'p_cct': 0.3,
             'disciplines': ['FIFO', 'FIFO', 'LIFO', 'LIFO', 'SIRO'], 'p_kinds': (0.6, 0.0, 0.25, 0.15)},
     'c08sched': {'n_classes': [2, 3], 'p_prio': 1.0, 'force_distinct_prio': True, 'p_prio_preempt': 1.0, 'prio_preempt_opts': ['resume', 'restart', 'resample'],
@@ -36,7 +38,7 @@ PROFILES = {
     'c09': {'n_nodes': [2, 3, 3, 4], 'routing_kinds': ['tm', 'nr', 'nr', 'nr', 'pb', 'fpb', 'fpb'], 'p_ccm': 0.5,
             'node_routers': ['leave', 'direct', 'prob', 'jsq', 'jsq', 'lb', 'lb', 'cycle']},
     'linger': {'disciplines': ['LINGER:1.0', 'LINGER:0.4', 'SECOND', 'FIFO'], 'p_ps': 0.0, 'n_classes': [2, 2, 3], 'p_lattice': 0.3},
-    'c10': {'p_batch': 0.6, 'p_share_objects': 0.5, 'p_lattice': 0.55},
+    'c10': {'p_batch': 0.6, 'p_share_objects': 0.5, 'p_lattice': 0.55, 'run_methods': ['time', 'time', 'customers']},
     'c09jsq': {'n_nodes': [2, 3, 3, 4], 'n_classes': [2, 3], 'routing_kinds': ['nr', 'nr', 'fpb'], 'node_routers': ['jsq', 'jsq', 'lb', 'jsq', 'prob'],
                'p_prio': 1.0, 'force_distinct_prio': True, 'p_prio_preempt': 1.0, 'prio_preempt_opts': ['reroute', 'reroute', 'resume', False],
                'p_kinds': (0.8, 0.0, 0.2, 0.0), 'sched_preempt': [False, 'reroute'], 'arr_scale': 0.6, 'p_ps': 0.25, 'p_qcap': 0.1},
@@ -48,7 +50,7 @@ PROFILES = {
     'c13': {'p_renege': 0.9, 'p_baulk': 0.6, 'p_kinds': (0.65, 0.0, 0.35, 0.0), 'p_ps': 0.0, 'arr_scale': 0.6, 'ren_scale': 1.0},
     'c17': {'trackers': ['SystemPopulation', 'NodePopulation', 'NodePopulationSubset', 'GroupedNodePopulation',
                          'NodeClassMatrix', 'NodeClassMatrix', 'NaiveBlocking', 'NaiveBlocking', 'MatrixBlocking', 'MatrixBlocking'],
-            'p_qcap': 0.6, 'p_ccm': 0.4, 'p_cct': 0.3, 'p_renege': 0.3},
+            'p_qcap': 0.6, 'p_ccm': 0.4, 'p_cct': 0.3, 'p_renege': 0.3, 'run_methods': ['time', 'time', 'customers']},
     'c17ncm': {'trackers': ['NodeClassMatrix'], 'n_classes': [2, 3], 'p_ccm': 1.0, 'p_cct': 0.8, 'p_qcap': 0.5, 'p_renege': 0.3, 'p_prio': 0.3,
                'p_kinds': (0.75, 0.05, 0.2, 0.0), 'p_ps': 0.0},
     'c02ps': {'p_ps': 1.0, 'p_ps_node': 0.6, 'p_qcap': 0.7, 'qcaps': [0, 0, 1, 2], 'n_nodes': [2, 3], 'arr_scale': 0.6, 'p_prio': 0.0},
@@ -74,7 +76,7 @@ def scope_c06(spec, f):
 
 
 def scope_c07(spec, f):
-    return not ({'prio_preempt', 'sched_preempt', 'slot_preempt', 'ps', 'srv_slotted'} & f)
+    return not ({'prio_preempt', 'sched_preempt', 'slot_preempt', 'srv_slotted'} & f)
 
 
 def scope_c11(spec, f):
@@ -89,7 +91,7 @@ PLANS = {
     'C04': ([('generic', 3), ('c04util', 4), ('ring', 2), ('c12', 1), ('linger', 1)], scope_all, ['C04.attaches']),
     'C05': ([('c05', 5), ('generic', 3), ('c12', 1), ('c13', 1)], scope_all, ['C05.snapshots_with_waiting']),
     'C06': ([('c06', 7), ('generic', 3)], scope_c06, ['C06.arrivals_when_full']),
-    'C07': ([('c07', 6), ('ring', 2), ('generic', 2)], scope_c07, ['C07.blocks']),
+    'C07': ([('c07', 6), ('c07inf', 3), ('ring', 2), ('generic', 2)], scope_c07, ['C07.blocks']),
     'C08': ([('c08', 5), ('c08sched', 2), ('generic', 3), ('c11', 1)], scope_all, ['C08.service_starts_with_choice', 'C08.slot_starts']),
     'C09': ([('c09', 5), ('c09jsq', 3), ('generic', 3)], scope_all, ['C09.routing_decisions']),
     'C10': ([('c10', 5), ('generic', 4), ('lattice', 1), ('exactlattice', 1), ('linger', 2)], scope_all, ['C10.services']),
